@@ -3,6 +3,7 @@ package main
 import (
 	"fmt"
 	"math"
+	"time"
 
 	"github.com/practable/relay/verifharness/lib"
 )
@@ -10,7 +11,7 @@ import (
 // Step is what the servers do with one attempt.
 type Step struct {
 	A string `json:"a"` // access: ok down refuse hang 4xx 5xx garbage emptyuri
-	W string `json:"w"` // websocket: down refuse 4xx 5xx garbage emptyuri accept acceptdropw accepthang hang
+	W string `json:"w"` // websocket: down refuse 4xx 5xx garbage emptyuri accept acceptdropw accepthang acceptstay hang
 	K int    `json:"k"` // accept: messages each way before the drop
 }
 
@@ -44,6 +45,9 @@ type Trace struct {
 	InSeq        [][]int // per attempt: sequence numbers that arrived on r.In
 	AckSeq       [][]int // per attempt: sequence numbers of client messages the server received
 	Lagged       []bool
+	// long-lived connection: numbered messages the user handed to r.Out (time of hand-over) and the echoes on r.In
+	SentAt  []int64
+	EchoSeq []int
 }
 
 type Case struct {
@@ -55,6 +59,7 @@ type Case struct {
 	Factor   int64  `json:"factor"`
 	Sched    []Step `json:"sched,omitempty"`
 	Cancel   Cancel `json:"cancel"`
+	Stay     int64  `json:"stay,omitempty"` // acceptstay: how long the healthy connection is kept before the cancel (ns)
 	Returned bool   `json:"returned"`
 	Obs      []Obs  `json:"obs,omitempty"`
 	Trace    *Trace `json:"trace,omitempty"`
@@ -78,6 +83,9 @@ func (s Step) coq() string {
 	}
 	if s.W == "acceptdropw" {
 		w = lib.App("AcceptThenDropW", lib.Nat(s.K))
+	}
+	if s.W == "acceptstay" {
+		w = lib.App("AcceptThenStay", lib.Nat(s.K))
 	}
 	return lib.Tuple(accCoq[s.A], w)
 }
@@ -131,12 +139,12 @@ func stepFails(loop string, s Step) bool {
 	if loop == "auth" && s.A != "ok" {
 		return true
 	}
-	return s.W != "accept" && s.W != "accepthang" && s.W != "acceptdropw"
+	return s.W != "accept" && s.W != "accepthang" && s.W != "acceptdropw" && s.W != "acceptstay"
 }
 
 // waitBefore is the generator's expectation of the wait in front of attempt i (used only to place
 // the cancellation inside a wait and to size deadlines - never as the verdict).
-func waitBefore(loop string, sched []Step, i int) int64 {
+func waitBefore(loop string, sched []Step, i int, min, max int64) int64 {
 	j := 0
 	for k := i - 1; k >= 0 && stepFails(loop, sched[k]); k-- {
 		j++
@@ -144,9 +152,9 @@ func waitBefore(loop string, sched []Step, i int) int64 {
 	if j == 0 {
 		return 0
 	}
-	w := float64(cfgMin) * math.Pow(2, float64(j-1))
-	if w > float64(cfgMax) {
-		return cfgMax
+	w := float64(min) * math.Pow(2, float64(j-1))
+	if w > float64(max) {
+		return max
 	}
 	return int64(w)
 }
@@ -175,6 +183,17 @@ func genStep(r *lib.Rng, loop string, pSuccess int) Step {
 // kind) plus free random ones; each with a reachable cancellation point.
 func genLoopCases(rng *lib.Rng, n int, thorough bool) []Case {
 	var cs []Case
+	// first the two kinds that need wall time or length rather than variety
+	nOutage, stay := 2, 45*time.Second
+	if thorough {
+		nOutage, stay = 10, 150*time.Second
+	}
+	for i := 0; i < 2; i++ { // one long-lived healthy connection per loop kind
+		cs = append(cs, genStayCase(rng.Fork(), []string{"plain", "auth"}[i], stay))
+	}
+	for i := 0; i < nOutage; i++ { // long outages
+		cs = append(cs, genOutageCase(rng.Fork(), []string{"plain", "auth"}[i%2]))
+	}
 	for i := 0; i < n; i++ {
 		r := rng.Fork()
 		loop := "plain"
@@ -230,7 +249,7 @@ func genLoopCases(rng *lib.Rng, n int, thorough bool) []Case {
 		ci := len(sched) - 1
 		last := &sched[ci]
 		var opts []Cancel
-		if waitBefore(loop, sched, ci) >= 80*ms {
+		if waitBefore(loop, sched, ci, c.Min, c.Max) >= 80*ms {
 			opts = append(opts, Cancel{I: ci, P: "wait"}, Cancel{I: ci, P: "wait"})
 		}
 		if loop == "auth" {
@@ -272,6 +291,41 @@ func genLoopCases(rng *lib.Rng, n int, thorough bool) []Case {
 	return cs
 }
 
+// genStayCase: a couple of quick failures, then ONE connection to a healthy server that stays up for
+// [stay]; the user sends a numbered message every ~300 ms and the server echoes it; then the cancel.
+func genStayCase(r *lib.Rng, loop string, stay time.Duration) Case {
+	c := Case{Kind: "loop", Loop: loop, Min: cfgMin, Max: cfgMax, Factor: cfgFact, Stay: int64(stay)}
+	for k := r.Range(0, 2); k > 0; k-- {
+		c.Sched = append(c.Sched, genStep(r, loop, 0))
+	}
+	c.Sched = append(c.Sched, Step{A: "ok", W: "acceptstay"})
+	c.Cancel = Cancel{I: len(c.Sched) - 1, P: "conn"}
+	return c
+}
+
+// genOutageCase: a long outage - 60 to 80 consecutive failed attempts of every kind - with a small Min
+// (1-5 ms) and Max (40-80 ms), so that the run goes far beyond the point where Min*2^n leaves int64
+// (n = 42..45) while costing a few seconds; cancelled in the last attempt.
+func genOutageCase(r *lib.Rng, loop string) Case {
+	c := Case{Kind: "loop", Loop: loop, Min: int64(r.Range(1, 5)) * ms, Max: int64(r.Range(40, 80)) * ms, Factor: cfgFact}
+	for k := r.Range(60, 80); k > 0; k-- {
+		c.Sched = append(c.Sched, genStep(r, loop, 0))
+	}
+	ci := len(c.Sched) - 1
+	last := &c.Sched[ci]
+	switch {
+	case r.Bool():
+		last.A, last.W, last.K = "ok", "accept", r.Range(2, 9)
+		c.Cancel = Cancel{I: ci, P: "conn", J: r.Range(1, last.K-1)}
+	case loop == "auth":
+		c.Cancel = Cancel{I: ci, P: "access"}
+	default:
+		last.A, last.W = "ok", "refuse"
+		c.Cancel = Cancel{I: ci, P: "ws"}
+	}
+	return c
+}
+
 // genBoffCase: random Min/Max (ordinary, tiny, huge beyond 2^53, zero/negative = defaults, Min >= Max),
 // Factor 2 (or <= 0, which the library reads as 2), a random sequence of Duration()/Reset().
 func genBoffCase(r *lib.Rng, i int) Case {
@@ -305,6 +359,9 @@ func genBoffCase(r *lib.Rng, i int) Case {
 	n := r.Range(8, 60)
 	if i%25 == 0 {
 		n = r.Range(1030, 1200) // past 2^1024: math.Pow overflows to +Inf
+	}
+	if i%50 == 0 {
+		n = r.Range(2000, 2100)
 	}
 	pReset := 8
 	if i%25 == 0 {
